@@ -771,7 +771,7 @@ pub fn gen_stage_cfg(rng: &mut Rng, max_steps: u64, cli_like: bool) -> OptCfg {
         kt_start: if cli_like { 0.0 } else { *rng.pick(&[0.0, 0.0, 1e-3, 0.1, 0.1, 1.0]) },
         kt_finish,
         kt_ratio,
-        max_step: *rng.pick(&[1e-3, 0.01, 0.01, 0.1, 0.5, 1.0]),
+        max_step: *rng.pick(&[1e-3, 0.01, 0.01, 0.1, 0.5, 1.0, 1.0, 2.5, 5.0]),
         convergence: *rng.pick(&[None, None, None, Some(1e-6)]),
         seed: rng.below(1 << 32),
     }
